@@ -238,6 +238,22 @@ func runC15(c *Ctx) {
 		}
 	}
 
+	// K: numbers written with an exponent in a query: refused beyond 10^+-1000, whatever the fraction does to the exponent
+	for _, e := range []int{0, 1, -1, 5, 999, 1000, 1001, 1002, 1005, -999, -1000, -1001, 30000000, -30000000, 999999999} {
+		for _, frac := range []int{0, 1, 2, 5} {
+			text := "1"
+			if frac > 0 {
+				text += "." + strings.Repeat("5", frac)
+			}
+			text += fmt.Sprintf("e%d", e)
+			exp := "refused"
+			if _, err := contactql.ParseQuery(env, "age > "+text, resolver); err == nil {
+				exp = "ok"
+			}
+			c.Model("numexpguard", fmt.Sprintf("numexpguard query %d %d", frac, e), exp, map[string]any{"query": "age > " + text})
+		}
+	}
+
 	// ---- M5: totality over every admitted (property, operator) pair -----------------------
 	{
 		fs := append([]assets.Field{}, fields...)
